@@ -33,6 +33,9 @@ type Case struct {
 	Waiters  int    `json:"waiters"`
 	// prioritized begin/end pairs fired while background fetch runs (delays in microseconds)
 	PrioDuringBG []int `json:"prio_during_bg,omitempty"`
+	// on-demand reads of a few bytes (file index, offset, length) issued before background fetch starts: they leave
+	// single chunks of a file in the cache
+	PartialReads [][3]int `json:"partial_reads,omitempty"`
 	Repeat       bool  `json:"repeat,omitempty"` // call Prefetch / BackgroundFetch / Wait a second time (also concurrently)
 }
 
@@ -44,7 +47,7 @@ func gen(t *rapid.T) Case {
 		cs = 64
 	}
 	c.Archive = tarmodel.Gen(t, tarmodel.GenOpts{MaxEntries: 12, ChunkSize: cs, Hardlinks: true, Spellings: true, RootEntry: true})
-	c.Archive.Entries = append(c.Archive.Entries, tarmodel.Entry{Name: "zz-data", Type: "reg", Mode: 0o644, MTime: 1600000000, Size: rapid.SampledFrom([]int{1, cs + 1, 3 * cs}).Draw(t, "zzsize"), Seed: 99})
+	c.Archive.Entries = append(c.Archive.Entries, tarmodel.Entry{Name: "zz-data", Type: "reg", Mode: 0o644, MTime: 1600000000, Size: rapid.SampledFrom([]int{1, cs + 1, 3 * cs, 20 * cs, 9*cs + 1}).Draw(t, "zzsize"), Seed: 99})
 	kind := rapid.SampledFrom([]string{"prioritized", "prioritized", "prioritized", "none", "legacy"}).Draw(t, "layerkind")
 	var names []string
 	for _, e := range c.Archive.Entries {
@@ -72,8 +75,23 @@ func gen(t *rapid.T) Case {
 		c.Script, c.ScriptAt = "stall", rapid.IntRange(0, 2).Draw(t, "at")
 	}
 	c.Waiters = rapid.IntRange(0, 3).Draw(t, "waiters")
+	if c.Script == "stall" && rapid.Bool().Draw(t, "asyncedge") {
+		// the requested size exceeds the asynchronous threshold, the size that is really prefetched may not
+		c.Cfg.AsyncSize = rapid.SampledFrom([]int64{100000, 300, 100}).Draw(t, "asyncsize2")
+		c.PrefetchSize = 1 << 20
+		if c.Waiters == 0 {
+			c.Waiters = 1
+		}
+	}
 	c.PrioDuringBG = rapid.SliceOfN(rapid.SampledFrom([]int{0, 50, 300, 2000}), 0, 4).Draw(t, "prio")
 	c.Repeat = rapid.Bool().Draw(t, "repeat")
+	npr := rapid.SampledFrom([]int{0, 0, 1, 2, 4}).Draw(t, "npartial")
+	if npr > 0 && rapid.Bool().Draw(t, "smallregchunk") {
+		c.Cfg.RegChunk = rapid.SampledFrom([]int64{100, 64, 512}).Draw(t, "regchunk2") // a skipped file's blob range is then not fetched along with its neighbours
+	}
+	for i := 0; i < npr; i++ {
+		c.PartialReads = append(c.PartialReads, [3]int{rapid.IntRange(-5, 12).Draw(t, "prfile"), rapid.SampledFrom([]int{0, 0, 1, cs, cs + 1, 2 * cs}).Draw(t, "proff"), rapid.SampledFrom([]int{1, 2, cs, cs + 1}).Draw(t, "prlen")})
+	}
 	return c
 }
 
@@ -202,12 +220,15 @@ func run(c Case, ev *pbt.Ev) error {
 	prefetchDone := make(chan error, 1)
 	go func() { prefetchDone <- l.Prefetch(c.PrefetchSize) }()
 	waitErrs := make([]string, c.Waiters)
+	waitTook := make([]time.Duration, c.Waiters)
+	prefetchStart := time.Now()
 	for w := 0; w < c.Waiters; w++ {
 		wg.Add(1)
 		go func(w int) {
 			defer wg.Done()
 			t0 := time.Now()
 			l.WaitForPrefetchCompletion()
+			waitTook[w] = time.Since(t0)
 			if d := time.Since(t0); d > timeout*margin {
 				waitErrs[w] = fmt.Sprintf("WaitForPrefetchCompletion returned after %v (configured timeout %v)", d, timeout)
 			}
@@ -219,10 +240,30 @@ func run(c Case, ev *pbt.Ev) error {
 	case <-time.After(60 * time.Second):
 		return pbt.Violf("prefetch-hangs", "Prefetch did not return within 60 s (fetch timeout is %d s)", c.Cfg.FetchTO)
 	}
+	prefetchTook := time.Since(prefetchStart)
 	wg.Wait()
 	for _, w := range waitErrs {
 		if w != "" {
 			return pbt.Violf("wait-unbounded", "%s", w)
+		}
+	}
+	// waiting covers the prefetch: it may end early only in the documented asynchronous mode, i.e. when the size
+	// that is actually prefetched (landmark offset, or the requested size capped at the blob size) exceeds
+	// prefetch_async_size.  Judged only when the registry stalled, so that "early" is unmistakable.
+	if c.Script == "stall" && scripted.Load() && prefetchTook > 800*time.Millisecond && !noPrefetch {
+		effective := c.PrefetchSize
+		if landmark != nil {
+			effective = landmark.Offset
+		} else if effective > int64(len(res.Blob)) {
+			effective = int64(len(res.Blob))
+		}
+		async := c.Cfg.AsyncSize > 0 && effective > c.Cfg.AsyncSize
+		for w, d := range waitTook {
+			if d < 300*time.Millisecond && !async {
+				return pbt.Violf("wait-returned-early", "waiter %d returned after %v while the prefetch of %d bytes (prefetch_async_size %d: synchronous) was still stalled and took %v; the timeout is %v", w, d, effective, c.Cfg.AsyncSize, prefetchTook, timeout)
+			}
+			ev.ClassIf(!async, "waiter-held-during-stalled-synchronous-prefetch")
+			ev.ClassIf(async, "waiter-released-early-async-mode")
 		}
 	}
 	// once prefetch ended or failed, waiting returns promptly
@@ -245,6 +286,8 @@ func run(c Case, ev *pbt.Ev) error {
 				return pbt.Violf("no-prefetch-traffic", "the layer carries a no-prefetch landmark but Prefetch caused %d range request(s): %v", len(prefetchReqs), prefetchReqs[0].Ranges)
 			}
 		case landmark != nil:
+			// (without sync_add the cache files are written in the background: "prefetched" is observable once they landed)
+			st.WaitCacheWritesLanded(5 * time.Second)
 			before := st.Reg.LogLen()
 			for _, name := range prioritized {
 				got, err := readAll(name)
@@ -279,6 +322,49 @@ func run(c Case, ev *pbt.Ev) error {
 			}
 		}
 	}
+	// ---- a container reads a few bytes here and there before background fetch gets to run
+	if len(c.PartialReads) > 0 {
+		var regs []string
+		for n, f := range files {
+			if len(f.Content) > 0 && n != ".prefetch.landmark" && n != ".no.prefetch.landmark" {
+				regs = append(regs, n)
+			}
+		}
+		sort.Strings(regs)
+		for _, pr := range c.PartialReads {
+			if len(regs) == 0 {
+				break
+			}
+			name := regs[((pr[0]%len(regs))+len(regs))%len(regs)]
+			if _, ok := files["zz-data"]; ok && pr[0] < 0 {
+				name = "zz-data"
+			}
+			n, _, errno := fs.Walk(tarmodel.Clean(name))
+			if errno != 0 {
+				return pbt.Violf("read-failed", "lookup of %q: errno %d", name, errno)
+			}
+			h, errno := fs.Open(n)
+			if errno != 0 {
+				return pbt.Violf("read-failed", "open of %q: errno %d", name, errno)
+			}
+			want := files[name].Content
+			off := pr[1]
+			if off > len(want) {
+				off = len(want)
+			}
+			buf := make([]byte, pr[2])
+			got, errno := h.Read(buf, int64(off))
+			h.Release()
+			end := off + pr[2]
+			if end > len(want) {
+				end = len(want)
+			}
+			if errno != 0 || !bytes.Equal(buf[:got], want[off:end]) {
+				return pbt.Violf("read-bytes", "on-demand read of %q [%d,%d) before background fetch: errno %d, %d bytes", name, off, end, errno, got)
+			}
+			ev.ClassIf(len(want) > c.Opts.EffectiveChunk(), "partial-read-of-multi-chunk-file-before-bgfetch")
+		}
+	}
 	// ---- background fetch with prioritized work arriving
 	stopPrio := make(chan struct{})
 	var pw sync.WaitGroup
@@ -310,6 +396,7 @@ func run(c Case, ev *pbt.Ev) error {
 	if bgErr != nil {
 		return pbt.Violf("bgfetch-failed", "BackgroundFetch of a valid layer from a healthy registry failed: %v", bgErr)
 	}
+	st.WaitCacheWritesLanded(5 * time.Second)
 	st.Reg.SetDown(true)
 	var names []string
 	for n := range files {
@@ -364,9 +451,9 @@ func run(c Case, ev *pbt.Ev) error {
 }
 
 func TestProp_Prefetch(t *testing.T) {
-	pbt.Run(t, pbt.Options{Prop: "C15", Name: "Prefetch", Quick: 1500, Thorough: 50000, Current: true, Timeout: 240 * time.Second,
+	pbt.Run(t, pbt.Options{Prop: "C15", Name: "Prefetch", Quick: 1500, Thorough: 12000, Current: true, Timeout: 240 * time.Second,
 		Rule: "rapid: layer = builder output with a prioritized list / without (no-prefetch landmark) / legacy Writer output without landmarks x stack config (both stores, cache kinds, registry chunk size, prefetch chunk size, async threshold, silence period) x prefetch size x registry script during prefetch {healthy, n-th range fetch fails with 500, n-th range fetch stalls until its 1 s timeout} x 0-3 concurrent waiters x prioritized begin/end pairs fired during background fetch x repeated/concurrent second calls; " +
-			"oracle: after a successful Prefetch on a prefetch-landmark layer reading every file laid out before the landmark adds no range request to the registry log; no-prefetch landmark => zero range requests; legacy => the first min(size, blob) bytes were requested; after a successful BackgroundFetch every file reads completely and correctly with the registry unreachable; WaitForPrefetchCompletion returns within 20x its 1 s timeout in every script and promptly once Prefetch has returned; second calls cause no traffic. " +
+			"oracle: after a successful Prefetch on a prefetch-landmark layer reading every file laid out before the landmark adds no range request to the registry log; no-prefetch landmark => zero range requests; legacy => the first min(size, blob) bytes were requested; after a successful BackgroundFetch every file reads completely and correctly with the registry unreachable; WaitForPrefetchCompletion returns within 20x its 1 s timeout in every script, promptly once Prefetch has returned, and not while a stalled prefetch below the asynchronous threshold is still running; a few on-demand partial reads precede background fetch; second calls cause no traffic. " +
 			"non-trivial = a prioritized multi-chunk file, a scripted failure/stall, or the DB store with a prefetch landmark",
 	}, gen, run)
 }
